@@ -398,7 +398,47 @@ func run(c *engine.Ctx) {
 			}
 		}
 	}
+	// D: typed arguments: every statement whose argument is checked by a helper of its own (dates,
+	// numbers, booleans, enumerated words, identifiers, paths, URIs) x a menu of argument values at and
+	// around the boundaries of every one of those helpers
+	for fi, frame := range typedArgFrames {
+		for vi, v := range typedArgValues() {
+			id := fmt.Sprintf("typedarg:%d:%d", fi, vi)
+			if !c.Owns(id) || !c.Case(id) {
+				continue
+			}
+			c.Add("states", 1)
+			c.Add("transitions", 1)
+			report("module m{namespace u;prefix p;" + strings.Replace(frame, "ARG", "\""+v+"\"", 1) + "}")
+		}
+	}
 	c.Sample(map[string]any{"text": corpus[1][:40], "kind": "corpus prefix"})
+}
+
+var typedArgFrames = []string{
+	"revision ARG;", "import o{prefix o;revision-date ARG;}", "typedef t{type enumeration{enum e{value ARG;}}}", "typedef t{type bits{bit b{position ARG;}}}",
+	"leaf-list l{type string;min-elements ARG;}", "leaf-list l{type string;max-elements ARG;}", "typedef t{type decimal64{fraction-digits ARG;}}",
+	"typedef t{type string{length ARG;}}", "typedef t{type int8{range ARG;}}", "leaf l{type string;mandatory ARG;}", "leaf l{type string;config ARG;}",
+	"typedef t{type instance-identifier{require-instance ARG;}}", "extension e{argument a{yin-element ARG;}}", "leaf l{type string;status ARG;}",
+	"leaf-list l{type string;ordered-by ARG;}", "deviation /a{deviate ARG;}", "leaf ARG{type string;}", "import o{prefix ARG;}", "list l{key ARG;leaf k{type string;}}",
+	"list l{key k;unique ARG;leaf k{type string;}}", "leaf l{type leafref{path ARG;}}", "augment ARG{leaf z{type string;}}", "uses g{refine ARG{description d;}}",
+	"deviation ARG{deviate not-supported;}", "leaf l{type ARG;}", "leaf l{type string;if-feature ARG;}", "identity i{base ARG;}", "include ARG;", "namespace ARG;",
+	"leaf l{type string;must ARG;}", "leaf l{type string{pattern ARG;}}", "leaf l{type string;default ARG;}", "p:ext ARG;",
+}
+
+func typedArgValues() []string {
+	out := []string{"", " ", "-", "2020-1-01", "2020-01-1", "2020-01-01x", "2020--01", "20200101", "２０２０-01-01", "2020-01-01 ", "02020-01-01",
+		"0", "-0", "+1", "-1", "1", "18", "19", "255", "256", "4294967295", "4294967296", "9223372036854775807", "9223372036854775808", "18446744073709551615", "18446744073709551616",
+		"-9223372036854775808", "-9223372036854775809", "99999999999999999999999999", "1e3", "0x10", "010", "1.5", ".5", "1.", "min", "max", "unbounded", "min..max", "max..min", "1..", "..1", "1|2", "1..2|3", "1..2 | 3..4", "|", "..", "1 .. 2", "1...2", "1..2..3",
+		"true", "false", "True", "TRUE", "t", "current", "obsolete", "deprecated", "user", "system", "add", "replace", "delete", "not-supported", "Add",
+		"a", "a:b", "a:b:c", ":a", "a:", "/a", "/a:b/c", "/a/", "//a", "a/b", "a/b/", "../a", "../../a/b", "a b", "a  b", " a", "1a", "-a", ".a", "_a", "a.b-c_d", "xml", "XMLa", "a[1]", "a^b", "a`b", "é", "a\u200db",
+		"/a[k=current()/../x]/b", "/a[k = current()/../x]", "/a[", "/a[]", "/a[k=]", "current()", "deref(../a)/b", "urn:a", "URN:A", "http://e.com/a b", "urn:a#", "%", "%zz", "[a-z]+", "[a-", "(", "\\p{IsBasicLatin}", "1 +", "'"}
+	for _, mm := range []string{"00", "01", "02", "04", "12", "13", "99"} {
+		for _, dd := range []string{"00", "01", "28", "29", "30", "31", "32", "99"} {
+			out = append(out, "2020-"+mm+"-"+dd, "0000-"+mm+"-"+dd)
+		}
+	}
+	return out
 }
 
 func replay(c *engine.Ctx, sub string, raw json.RawMessage) []engine.Violation {
